@@ -155,6 +155,7 @@ Lemma la_prepare_tracks n a calls : (1 <= n)%nat -> la_inv n a calls -> tracks n
 Proof.
   intros Hn [_ [[-> Hz]|Ht]]; unfold la_prepare.
   - cbn [length]. assert (E : Nat.ltb 0 n = true) by (apply Nat.ltb_lt; lia). rewrite E.
+    cbn [app]. rewrite Nat.sub_0_r.
     split; [apply repeat_length|]. intros j Hj. rewrite nth_error_repeat0 by exact Hj. rewrite Hz. reflexivity.
   - destruct Ht as [Hl Ht]. rewrite Hl, Nat.ltb_irrefl. split; assumption.
 Qed.
